@@ -167,6 +167,11 @@ func (en *evalEnv) lookupIdent(name string) (ev, bool) {
 					// an address-taken variable: its current contents are read from its cell
 					if id, ok := dr.Expr.(*ast.Ident); ok && id.Name == name && en.hasValue(dr.X) {
 						if pt, ok := dr.X.Type().(*types.Pointer); ok {
+							if _, isArr := arrayElem(pt.Elem()); isArr {
+								if row := e.rowOf(en.st, e.val(en.fr, dr.X)); row != nil {
+									return ev{row, pt.Elem()}, true
+								}
+							}
 							return ev{e.load(en.fr, en.st, e.val(en.fr, dr.X), pt.Elem()), pt.Elem()}, true
 						}
 					}
@@ -181,6 +186,11 @@ func (en *evalEnv) lookupIdent(name string) (ev, bool) {
 						if obj := dr.Object(); obj != nil {
 							if cell := cellOf(en.point.Parent(), obj); cell != nil && en.hasValue(cell) {
 								if pt, ok := cell.Type().(*types.Pointer); ok {
+									if _, isArr := arrayElem(pt.Elem()); isArr {
+										if row := e.rowOf(en.st, e.val(en.fr, cell)); row != nil {
+											return ev{row, pt.Elem()}, true
+										}
+									}
 									return ev{e.load(en.fr, en.st, e.val(en.fr, cell), pt.Elem()), pt.Elem()}, true
 								}
 							}
@@ -262,6 +272,12 @@ func (en *evalEnv) member(m ssa.Member) (ev, bool) {
 	switch x := m.(type) {
 	case *ssa.Global:
 		pt := x.Type().(*types.Pointer).Elem()
+		if _, ok := arrayElem(pt); ok {
+			// an array variable read in a contract: its row, as it is now (no snapshot needed for an instantaneous read)
+			if row := en.e.rowOf(en.st, en.e.val(en.fr, x)); row != nil {
+				return ev{row, pt}, true
+			}
+		}
 		return ev{en.e.load(en.fr, en.st, en.e.val(en.fr, x), pt), pt}, true
 	case *ssa.NamedConst:
 		return ev{en.e.constVal(x.Value), x.Type()}, true
@@ -472,6 +488,15 @@ func (en *evalEnv) eval(x Expr) ev {
 			}
 			h := e.heapRead(en.st, arrComp(u.Elem()), ArrSort(ArrSort(es)))
 			return ev{Select(Select(h, App(SInt, "sl-id", sl)), Add(App(SInt, "sl-off", sl), i)), u.Elem()}
+		case *types.Array:
+			if et, ok := arrayElem(base.t); ok {
+				if row, ok := base.v.(*Term); ok && row.Sort == SInt {
+					es := sortOf(et)
+					h := e.heapRead(en.st, arrComp(et), ArrSort(ArrSort(es)))
+					return ev{Select(Select(h, row), i), et}
+				}
+			}
+			en.fail("cannot index %s", base.t)
 		case *types.Basic:
 			return ev{App(SInt, "sat", base.v.(*Term), i), types.Typ[types.Byte]}
 		case *types.Map:
@@ -631,6 +656,9 @@ func (en *evalEnv) call(x *ECall) ev {
 		}
 		en.fail("len of %s", t.Sort)
 	case "idof":
+		if t := arg(0).v.(*Term); t.Sort == SInt {
+			return ev{t, nil} // an array variable: its row
+		}
 		return ev{App(SInt, "sl-id", arg(0).v.(*Term)), nil}
 	case "offof":
 		return ev{App(SInt, "sl-off", arg(0).v.(*Term)), nil}
